@@ -34,6 +34,12 @@ def main():
             if isinstance(e, Refuse) and getattr(e, "counterexample", False) or not base.exists():
                 print(f"translator:{mod.NAME}: refused: {why}")
                 ok = False
+                if base.exists():
+                    # leave a well-defined table behind (the pinned reading, never a table generated from some other
+                    # tree by an earlier run): the search for a failing input compares the implementation with it
+                    p = out / f"{mod.NAME}.v"
+                    if not p.exists() or p.read_text() != base.read_text():
+                        p.write_text(base.read_text())
                 continue
             # The reader does not recognise the source any more and has no behavioural probe of its own for this
             # table (or the probe could not decide).  The table of the pinned tree is used: for this run the model is
